@@ -198,6 +198,19 @@ func (e *specEnv) callExpr(n *ECall, hint types.Type) sv {
 		return sv{Val: Val{t: e.heldTerm(n.Fun, n.Args[0]), typ: tBool}}
 	}
 	switch n.Fun {
+	case "lastbytes":
+		// lastbytes(Name, i): content (as a string) of the []byte argument i of the last call to Name, at call time
+		argn(2)
+		id, ok := n.Args[0].(*EIdent)
+		ii, ok2 := n.Args[1].(*EInt)
+		if !ok || !ok2 {
+			sfail("lastbytes(Name, i)")
+		}
+		k := fmt.Sprintf("Arg.%s.%s.bytes", id.Name, ii.Val)
+		if _, ok := u.keySort[k]; !ok {
+			sfail("lastbytes: no recorded []byte argument %s of %s (is it called in this function?)", ii.Val, id.Name)
+		}
+		return sv{Val: Val{t: e.st.get(u, k), typ: types.Typ[types.String]}}
 	case "ncalls", "lastres", "lastarg":
 		// ghost call record of the function under verification (see trackedCall)
 		if len(n.Args) < 1 {
